@@ -25,9 +25,9 @@ from harness.tlc import Scratch, run_tlc, model_check, validate_traces, Machiner
 from harness.props.merkle import shash, leaf, term, Collector
 
 
-def cfg(n, initlen, startlen, reqs, reorgs, variant, export):
+def cfg(n, initlen, startlen, reqs, reorgs, variant, export, truncfirst=False):
     return (f'CONSTANTS N = {n} InitLen = {initlen} StartLen = {startlen} MaxReqs = {reqs} MaxReorgs = {reorgs} '
-            f'Variant = "{variant}" Export = {"TRUE" if export else "FALSE"}\nSPECIFICATION Spec\nVIEW View\nCHECK_DEADLOCK FALSE\n'
+            f'Variant = "{variant}" Export = {"TRUE" if export else "FALSE"} TruncFirst = {"TRUE" if truncfirst else "FALSE"}\nSPECIFICATION Spec\nVIEW View\nCHECK_DEADLOCK FALSE\n'
             + ('' if export else 'INVARIANT ProofsVerify\nINVARIANT NoPoisoning\n'))
 
 
@@ -284,6 +284,13 @@ def check(pid, tier, seed):
         if not res.violated:
             raise MachineryError('MerkleRace.tla with Variant="orig" shows no violation: the model lost its teeth')
         out.notes.append(f'MerkleRace.tla Variant="orig" (code before fix c0d55d3) violates {res.violated} as expected')
+        sc.write('RT.cfg', cfg(6, 2, 5, 2, 1, 'fixed', False, truncfirst=True))
+        res = run_tlc(sc, 'MerkleRace', 'RT.cfg', timeout=900)
+        if 'NoPoisoning' not in res.violated and 'ProofsVerify' not in res.violated:
+            raise MachineryError('MerkleRace.tla with TruncFirst=TRUE shows no violation: the model lost its teeth')
+        out.notes.append(f'MerkleRace.tla TruncFirst=TRUE (flush_backup before fix 28f67d5: cache truncated before the state roll-back) '
+                         f'violates {res.violated} as expected; on the real stack the window is entered by parking the undo job in a '
+                         f'real thread before its first commit')
         N, initlen, startlen = 6, 2, 5
         sc.write('RX.cfg', cfg(N, initlen, startlen, 2, 1, 'fixed', True))
         res = run_tlc(sc, 'MerkleRace', 'RX.cfg', workers=8, timeout=1800)
